@@ -70,9 +70,9 @@ PKINDS = {"Dgate": "ra", "Xgate": "r", "Zgate": "r", "Sgate": "ha", "Rgate": "a"
 DECOMPOSABLE = ["Xgate", "Zgate", "Pgate", "MZgate", "sMZgate", "S2gate", "CXgate", "CZgate", "Fouriergate"]
 PRIMS = ["Dgate", "Sgate", "Rgate", "BSgate"]
 PI = math.pi
-ANGLE_POOL = [0.0, PI / 2, PI, -PI / 2, PI / 4, -PI / 4, 2 * PI, -PI, 3 * PI / 2, 0.3, -0.7, 1.1, 2.5, -2.9, 7.0, 1e-9]
-REAL_POOL = [0.0, 0.5, -0.5, 1.0, -1.0, 2.0, -3.0, 0.25, 1e-9, -1e-7, 6.0]
-HYP_POOL = [0.0, 0.3, -0.3, 0.7, -0.7, 1.2, -1.5, 1e-9]
+ANGLE_POOL = [0.0, PI / 2, PI, -PI / 2, PI / 4, -PI / 4, 2 * PI, -PI, 3 * PI / 2, 0.3, -0.7, 1.1, 2.5, -2.9, 7.0, 1e-9, 4e-4, -3e-3]
+REAL_POOL = [0.0, 0.5, -0.5, 1.0, -1.0, 2.0, -3.0, 0.25, 1e-9, -1e-7, 6.0, 5e-4, -2e-3]
+HYP_POOL = [0.0, 0.3, -0.3, 0.7, -0.7, 1.2, -1.5, 1e-9, 6e-4, -4e-3]
 
 FL = coq.coq_float
 
@@ -127,10 +127,45 @@ def c_cmd(name, params, wires, dag):
     return "(mkCmd F %s %s %s)" % (c_gate(name, params), coq.coq_list(wires, str), coq.coq_bool(dag))
 
 
-HEADER = ("From Coq Require Import List Bool Arith PrimFloat.\nImport ListNotations.\n"
-          "From SFV Require Import C02.Alg C02.Model C02.Float.\nOpen Scope nat_scope.\n"
-          "Definition S2H := %s. Definition IS2H := %s. Definition RT := %s.\n"
-          % (FL(np.sqrt(2 * sf.hbar)), FL(1 / np.sqrt(2 * sf.hbar)), FL(np.cos(np.pi / 4))))
+def header():
+    """Coq prelude; the model's constants sqrt(2 hbar), 1/sqrt(2 hbar) follow the CURRENT sf.hbar"""
+    return ("From Coq Require Import List Bool Arith PrimFloat.\nImport ListNotations.\n"
+            "From SFV Require Import C02.Alg C02.Model C02.Float.\nOpen Scope nat_scope.\n"
+            "Definition S2H := %s. Definition IS2H := %s. Definition RT := %s.\n"
+            % (FL(np.sqrt(2 * sf.hbar)), FL(1 / np.sqrt(2 * sf.hbar)), FL(np.cos(np.pi / 4))))
+
+
+HBARS = [0.5, 1.0, 1.7]
+DEFAULT_HBAR = sf.hbar
+
+
+class _hbar:
+    """run a block with another value of sf.hbar (the frontend reads it at call time), always restored"""
+
+    def __init__(self, h):
+        self.h = h
+
+    def __enter__(self):
+        self.old = sf.hbar
+        if self.h is not None:
+            sf.hbar = self.h
+
+    def __exit__(self, *a):
+        sf.hbar = self.old
+
+
+def with_hbar(fn):
+    """check functions take the value of hbar from their (replayable) data"""
+    def wrapped(data, *a, **k):
+        with _hbar(data.get("hbar")):
+            return fn(data, *a, **k)
+    wrapped.__name__ = fn.__name__
+    wrapped.__doc__ = fn.__doc__
+    return wrapped
+
+
+def draw_hbar(rng, p=0.25):
+    return rng.choice(HBARS) if rng.random() < p else None
 
 
 def trig_params(name, params):
@@ -178,8 +213,11 @@ def sig_equal(a, b, tol=1e-12):
 
 # ----------------------------------------------------------------------------------------
 # running the implementation
-def make_op(name, params, dag=False):
+def make_op(name, params, dag=False, hh=0):
+    """hh: number of extra `.H.H` pairs (an even number of daggers is no dagger)"""
     op = getattr(ops, name)(*params)
+    for _ in range(hh):
+        op = op.H.H
     if dag:
         op = op.H
     return op
@@ -235,8 +273,9 @@ def split20(v):
 def run_cmds_gaussian(n, speclist):
     """affine map of a list of [name, params, modes, dag] applied as written (engine compiles for 'gaussian')."""
     def build(q):
-        for name, params, modes, dag in speclist:
-            make_op(name, params, dag) | tuple(q[m] for m in modes)
+        for item in speclist:
+            name, params, modes, dag = item[:4]
+            make_op(name, params, dag, item[4] if len(item) > 4 else 0) | tuple(q[m] for m in modes)
     return affine_of(n, build)
 
 
@@ -292,12 +331,13 @@ def _gate_case(rng):
     else:
         n = rng.randint(max(k, 2), 4)
         targets = draw_targets(rng, n, k)
-    return {"gate": name, "params": params, "dag": dag, "n": n, "targets": targets}
+    return {"gate": name, "params": params, "dag": dag, "n": n, "targets": targets,
+            "hh": 1 if rng.random() < 0.2 else 0, "hbar": draw_hbar(rng)}
 
 
 def _impl_decompose(case):
     prog = sf.Program(case["n"])
-    op = make_op(case["gate"], case["params"], case["dag"])
+    op = make_op(case["gate"], case["params"], case["dag"], case.get("hh", 0))
     regs = [prog.register[t] for t in case["targets"]]
     try:
         seq = op.decompose(regs)
@@ -311,7 +351,7 @@ def _gate_predicate(case, doc20):
     documented transformation on the targets and as the identity elsewhere.  Returns max abs deviation."""
     A, dv = split20(doc20)
     n, targets = case["n"], case["targets"]
-    S, d = run_cmds_gaussian(n, [[case["gate"], case["params"], targets, case["dag"]]])
+    S, d = run_cmds_gaussian(n, [[case["gate"], case["params"], targets, case["dag"], case.get("hh", 0)]])
     Se, de = embed(n, targets, A, dv)
     return float(max(np.abs(S - Se).max(), np.abs(d - de).max()))
 
@@ -320,21 +360,28 @@ def _nontrivial_gate(case, ncmds):
     return ncmds >= 2 and (case["dag"] or case["targets"] != list(range(len(case["targets"]))))
 
 
-def corr_gates(ctx, cases):
-    lines = [HEADER, "Definition cases : list fcmd := ["]
+def corr_gates(ctx, cases, tag=""):
+    lines = [header(), "Definition cases : list fcmd := ["]
     items = []
+    usable = []
     for c in cases:
         k = NMODES[c["gate"]]
-        items.append(c_cmd(c["gate"], c["params"], list(range(k)), c["dag"]))
+        try:
+            items.append(c_cmd(c["gate"], c["params"], list(range(k)), c["dag"]))
+            usable.append(c)
+        except Exception as e:      # the implementation's own _decompose (read for the derived parameters) raised
+            ctx.counterexample("decomp:%s:raises:%s" % (c["gate"], type(e).__name__),
+                               "%s(%s)._decompose raised %r" % (c["gate"], c["params"], e), {"check": "gate", "case": c})
+    cases = usable
     lines.append(";\n".join(items) + "].")
     lines.append("Eval vm_compute in map (fun c => (opt_sig (decompose_cmd F (Kops:=FO S2H IS2H RT) c), run_doc S2H IS2H RT c, "
                  "match decompose_cmd F (Kops:=FO S2H IS2H RT) c with Some l => run_docs S2H IS2H RT l | None => [] end, "
                  "residuals S2H IS2H RT (cg F c))) cases.")
     ok, vals, raw = coq_eval(ctx, "cases_gates", "\n".join(lines))
     if not ok:
-        ctx.obligation("correspondence:gates:coq", False, raw)
+        ctx.obligation("correspondence:gates:coq" + tag, False, raw)
         return
-    ctx.obligation("correspondence:gates:coq", True)
+    ctx.obligation("correspondence:gates:coq" + tag, True)
     # Coq prints left-nested pairs flat: ((k, l), doc, dec, res) arrives as (k, l, doc, dec, res)
     for c, (mk, ml, doc20, dec20, res) in zip(cases, vals[0]):
         isig = _impl_decompose(c)
@@ -405,7 +452,8 @@ def _prog_case(rng):
         k = NMODES[name]
         w = rng.sample([0, 1], k)
         cmds.append([name, draw_params(rng, name), w, bool(rng.random() < 0.35)])
-    return {"n": n, "pair": pair, "cmds": cmds, "compiler": rng.choice(COMPILERS)}
+    return {"n": n, "pair": pair, "cmds": cmds, "compiler": rng.choice(COMPILERS), "hbar": draw_hbar(rng, 0.15),
+            "entry": rng.choice(["decompose", "compile"])}
 
 
 def _build(case):
@@ -420,7 +468,10 @@ def _impl_compile(case):
     prog = _build(case)
     comp = compiler_db[case["compiler"]]()
     try:
-        out = comp.decompose(prog.circuit)
+        if case.get("entry") == "compile":
+            out = prog.compile(compiler=case["compiler"]).circuit      # the public entry point
+        else:
+            out = comp.decompose(prog.circuit)
     except CircuitError:
         return (1, [])
     except NotImplementedError:
@@ -430,7 +481,7 @@ def _impl_compile(case):
 
 def check_tables(ctx):
     names = [k for k, v in sorted(KIND_ID.items(), key=lambda kv: kv[1])]
-    text = HEADER + ("Definition kinds := [kD; kX; kZ; kS; kR; kP; kBS; kMZ; ksMZ; kS2; kCX; kCZ; kF; kO 0; kO 1; kO 2; kO 3].\n"
+    text = header() + ("Definition kinds := [kD; kX; kZ; kS; kR; kP; kBS; kMZ; ksMZ; kS2; kCX; kCZ; kF; kO 0; kO 1; kO 2; kO 3].\n"
                      "Eval vm_compute in map (fun tb => map (fun k => (t_prim tb k, t_dec tb k)) kinds) [tb_gaussian; tb_bosonic; tb_fock].\n")
     ok, vals, raw = coq_eval(ctx, "tables", text)
     if not ok:
@@ -446,21 +497,28 @@ def check_tables(ctx):
     ctx.obligation("correspondence:tables", not bad, "\n".join(bad))
 
 
-def corr_compile(ctx, cases):
-    lines = [HEADER, "Definition TB (i : nat) := match i with 0 => tb_gaussian | 1 => tb_bosonic | _ => tb_fock end.",
+def corr_compile(ctx, cases, tag=""):
+    lines = [header(), "Definition TB (i : nat) := match i with 0 => tb_gaussian | 1 => tb_bosonic | _ => tb_fock end.",
              "Definition cases : list (nat * list fcmd) := ["]
     items = []
+    usable = []
     for c in cases:
-        items.append("(%d, %s)" % (COMPILERS.index(c["compiler"]),
-                                   coq.coq_list([c_cmd(*x) for x in c["cmds"]])))
+        try:
+            items.append("(%d, %s)" % (COMPILERS.index(c["compiler"]),
+                                       coq.coq_list([c_cmd(*x) for x in c["cmds"]])))
+            usable.append(c)
+        except Exception as e:
+            ctx.counterexample("compile:raises:%s" % type(e).__name__, "a _decompose of program %s raised %r" % (c["cmds"], e),
+                               {"check": "compile", "case": c})
+    cases = usable
     lines.append(";\n".join(items) + "].")
     lines.append("Eval vm_compute in map (fun c => let r := compile F (Kops:=FO S2H IS2H RT) 4 (TB (fst c)) (snd c) in "
                  "(res_sig r, run_docs S2H IS2H RT (snd c), match r with Ok _ l => run_apply S2H IS2H RT l | _ => [] end)) cases.")
     ok, vals, raw = coq_eval(ctx, "cases_compile", "\n".join(lines))
     if not ok:
-        ctx.obligation("correspondence:compile:coq", False, raw)
+        ctx.obligation("correspondence:compile:coq" + tag, False, raw)
         return
-    ctx.obligation("correspondence:compile:coq", True)
+    ctx.obligation("correspondence:compile:coq" + tag, True)
     for c, (mk, ml, docs20, app20) in zip(cases, vals[0]):
         isig = _impl_compile(c)
         msig = (mk, ml)
@@ -505,13 +563,31 @@ def corr_compile(ctx, cases):
             ctx.disagreement("corr:compile:" + c["compiler"], "; ".join(problems), data)
 
 
+def _by_hbar(cases):
+    groups = {}
+    for c in cases:
+        groups.setdefault(c.get("hbar"), []).append(c)
+    return sorted(groups.items(), key=lambda kv: (kv[0] is not None, kv[0] or 0))
+
+
 def correspondence(ctx):
     rng = ctx.rng
     check_tables(ctx)
+    alt = rng.choice(HBARS)      # one non-default hbar per run keeps the number of Coq batches at two per phase
+
+    def one_alt(cases):
+        for c in cases:
+            if c.get("hbar") is not None:
+                c["hbar"] = alt
+        return cases
     n1 = ctx.budget(250, 2500)
-    corr_gates(ctx, [_gate_case(rng) for _ in range(n1)])
+    for h, group in _by_hbar(one_alt([_gate_case(rng) for _ in range(n1)])):
+        with _hbar(h):
+            corr_gates(ctx, group, tag="" if h is None else ":hbar=%s" % h)
     n2 = ctx.budget(200, 2000)
-    corr_compile(ctx, [_prog_case(rng) for _ in range(n2)])
+    for h, group in _by_hbar(one_alt([_prog_case(rng) for _ in range(n2)])):
+        with _hbar(h):
+            corr_compile(ctx, group, tag="" if h is None else ":hbar=%s" % h)
 
 
 # ========================================================================================
@@ -552,6 +628,12 @@ def unitary_of_class(rng, cls, n):
         p = list(range(n))
         rng.shuffle(p)
         return U[p]
+    if cls == "small-angle":
+        # close to the identity but not trivially so: every mixing angle / phase is ~1e-3..1e-2
+        H = np.array([[complex(rng.gauss(0, 1), rng.gauss(0, 1)) for _ in range(n)] for _ in range(n)])
+        H = (H + H.conj().T) / 2
+        from scipy.linalg import expm
+        return expm(1j * rng.choice([2e-3, 5e-3, 1e-2]) * H)
     if cls == "real-orthogonal":
         q, _ = np.linalg.qr(np.array([[rng.gauss(0, 1) for _ in range(n)] for _ in range(n)]))
         return q.astype(complex)
@@ -560,7 +642,7 @@ def unitary_of_class(rng, cls, n):
 
 MESHES = ["rectangular", "rectangular_phase_end", "rectangular_symmetric", "triangular", "rectangular_compact",
           "triangular_compact", "sun_compact"]
-UCLASSES = ["haar", "identity", "permutation", "signed-permutation", "diagonal", "block", "zeros", "real-orthogonal"]
+UCLASSES = ["haar", "identity", "permutation", "signed-permutation", "diagonal", "block", "zeros", "real-orthogonal", "small-angle"]
 
 
 def mat_json(M):
@@ -579,6 +661,7 @@ def passive_action(n, build):
     return X + 1j * Y, S, d
 
 
+@with_hbar
 def check_interferometer(data):
     U = mat_of(data["U"])
     n, targets, mesh = data["n"], data["targets"], data["mesh"]
@@ -630,9 +713,15 @@ def search_interferometers(ctx, count):
         mesh = rng.choice(MESHES)
         cls = rng.choice(UCLASSES)
         m = rng.randint(3 if mesh == "sun_compact" else 2, 5)
+        if rng.random() < 0.08:
+            m = 1 if mesh != "sun_compact" else 6
+        elif rng.random() < 0.05:
+            m = 7
         u = rng.random()
         if u < 0.4:
             n, targets = m, list(range(m))
+        elif u < 0.5 and m <= 3:
+            n, targets = 11, rng.sample([10, 9, 1, 4], m)       # indices >= 9 in a wide register
         else:
             n = m + rng.randint(0, 2)
             targets = rng.sample(range(n), m)
@@ -644,6 +733,8 @@ def search_interferometers(ctx, count):
             data["tol"] = rng.choice([1e-3, 1e-9, 1e-6])
         if rng.random() < 0.25:
             data["via"] = "kwargs"
+        if rng.random() < 0.1:
+            data["hbar"] = rng.choice(HBARS)
         ctx.case({k: v for k, v in data.items() if k != "U"},
                  nontrivial=(cls != "haar" or mesh != "rectangular" or targets != list(range(m))),
                  bucket="interferometer:%s:%s" % (mesh, cls))
@@ -662,6 +753,7 @@ def search_interferometers(ctx, count):
 
 
 # ---- natively applied gates vs their decomposition (Fock applies MZgate / S2gate natively) ----
+@with_hbar
 def check_native(data):
     name, params, targets, dag, n = data["gate"], data["params"], data["targets"], data["dag"], data["n"]
 
@@ -669,7 +761,27 @@ def check_native(data):
         make_op(name, params, dag) | tuple(q[t] for t in targets)
     Sg, dg = affine_of(n, build, amp=0.3)
     Sf, df = affine_of(n, build, backend="fock", amp=0.3, cutoff_dim=data.get("cutoff", 14))
+    data["_fock"] = (Sf, df)
     return float(max(np.abs(Sg - Sf).max(), np.abs(dg - df).max()))
+
+
+def _known_mz_explains(data):
+    """The recorded MZgate defects predict exactly what the Fock backend does: nothing for phi_in == 0, MZgate(-phi_in, phi_ex)
+    for the dagger form.  A deviation is attributed to them only if the Fock result matches that prediction."""
+    name, params, targets, dag, n = data["gate"], data["params"], data["targets"], data["dag"], data["n"]
+    if name != "MZgate" or "_fock" not in data:
+        return None
+    Sf, df = data["_fock"]
+    if params[0] == 0:
+        pred, sig = (np.identity(2 * n), np.zeros(2 * n)), "apply:MZgate-p0-zero-skipped"
+    elif dag:
+        def build(q):
+            ops.MZgate(-params[0], params[1]) | tuple(q[t] for t in targets)
+        pred, sig = affine_of(n, build, amp=0.3), "apply:MZgate-dagger-negates-phi_in"
+    else:
+        return None
+    ok = max(np.abs(pred[0] - Sf).max(), np.abs(pred[1] - df).max()) <= TOL_FOCK
+    return sig if ok else None
 
 
 def search_native(ctx, count):
@@ -687,13 +799,10 @@ def search_native(ctx, count):
         data = {"check": "native", "gate": name, "params": params, "dag": dag, "n": n, "targets": targets, "cutoff": 14 if n == 2 else 9}
         ctx.case(data, nontrivial=(dag or params[0] == 0 or targets != [0, 1]), bucket="native:%s%s" % (name, ".H" if dag else ""))
         dev = check_native(data)
+        known_sig = _known_mz_explains(data)
+        data.pop("_fock", None)
         if dev > TOL_FOCK:
-            if name == "MZgate" and params[0] == 0:
-                sig = "apply:MZgate-p0-zero-skipped"
-            elif name == "MZgate" and dag:
-                sig = "apply:MZgate-dagger-negates-phi_in"
-            else:
-                sig = "native-vs-decomposed:%s%s" % (name, "-dagger" if dag else "")
+            sig = known_sig or "native-vs-decomposed:%s%s" % (name, "-dagger" if dag else "")
             ctx.counterexample(sig, "%s(%s)%s on modes %s: Fock backend (applies natively) and Gaussian backend (decomposes) differ by %.2e"
                                % (name, params, ".H" if dag else "", targets, dev), data)
 
@@ -755,6 +864,7 @@ def search_ggate(ctx, count):
 
 
 # ---- Gaussian transforms and Gaussian state preparations ----
+@with_hbar
 def check_gtransform(data):
     S = np.array(data["S"])
     n = len(S) // 2
@@ -790,8 +900,15 @@ def search_gtransform(ctx, count):
     rng = ctx.rng
     for _ in range(count):
         n = rng.randint(1, 3)
-        cls = rng.choice(["active", "passive", "identity", "squeeze-only", "active"])
-        if cls == "identity":
+        cls = rng.choice(["active", "passive", "identity", "squeeze-only", "active", "weak"])
+        if cls == "weak":
+            # weakly squeezing, weakly mixing: every parameter ~1e-3..1e-2
+            from scipy.linalg import expm
+            G = np.array([[rng.gauss(0, 1) for _ in range(2 * n)] for _ in range(2 * n)])
+            G = (G + G.T) / 2
+            Om = np.block([[np.zeros((n, n)), np.identity(n)], [-np.identity(n), np.zeros((n, n))]])
+            S = expm(rng.choice([3e-3, 1e-2]) * Om @ G)
+        elif cls == "identity":
             S = np.identity(2 * n)
         elif cls == "squeeze-only":
             r = np.array([rng.choice([0.0, 0.4, -0.5]) for _ in range(n)])
@@ -801,6 +918,8 @@ def search_gtransform(ctx, count):
         N = n + rng.randint(0, 2)
         targets = rng.sample(range(N), n)
         data = {"check": "gtransform", "class": cls, "S": S.tolist(), "n": N, "targets": targets, "vacuum": bool(rng.random() < 0.3)}
+        if rng.random() < 0.2:
+            data["hbar"] = rng.choice(HBARS)
         if rng.random() < 0.3:
             data["tol"] = rng.choice([1e-6, 1e-12])
         if not data["vacuum"] and rng.random() < 0.3:
@@ -842,7 +961,7 @@ def gaussian_state_of_class(rng, cls, n):
                   for _ in range(n)]
         return _xpxp_to_xxpp(block_diag(*blocks))
     if cls == "thermal":
-        nb = [rng.choice([0.0, 0.5, 1.0, 0.25]) for _ in range(n)]
+        nb = [rng.choice([0.0, 0.5, 1.0, 0.25, 0.01, 0.04]) for _ in range(n)]
         return np.diag(np.concatenate([2 * np.array(nb) + 1, 2 * np.array(nb) + 1]))
     if cls == "mixed-diag":
         a = [rng.choice([1.5, 2.0, 3.0]) for _ in range(n)]
@@ -851,11 +970,12 @@ def gaussian_state_of_class(rng, cls, n):
     S = _random_symplectic(rng, n)
     if cls == "random-pure":
         return S @ S.T
-    nb = np.array([rng.choice([0.0, 0.3, 1.0]) for _ in range(n)])
+    nb = np.array([rng.choice([0.0, 0.3, 1.0, 0.02]) for _ in range(n)])
     D = np.diag(np.concatenate([2 * nb + 1, 2 * nb + 1]))
     return S @ D @ S.T
 
 
+@with_hbar
 def check_gaussian_prep(data):
     V = np.array(data["V"]) * (sf.hbar / 2)
     r = np.array(data["r"])
@@ -915,6 +1035,8 @@ def search_gaussian_prep(ctx, count):
             r = np.zeros(2 * n)
         if rng.random() < 0.3:
             data["tol"] = rng.choice([1e-4, 1e-8])
+        if rng.random() < 0.3:
+            data["hbar"] = rng.choice(HBARS)
         ctx.case({k: v for k, v in data.items() if k != "V"}, nontrivial=(cls not in ("random-pure", "random-mixed") or targets != list(range(n))),
                  bucket="gaussian-prep:" + cls)
         try:
@@ -962,6 +1084,7 @@ def _run_with_kwargs(n, op, targets, kw):
     return sf.Engine("gaussian").run(prog).state
 
 
+@with_hbar
 def check_graph(data):
     """Documented outcome: the prepared pure Gaussian state has zero means, A-matrix proportional (positive factor) to the
     documented matrix (A, or A - tr(A) I/n with make_traceless; [[0,B],[B^T,0]] for the bipartite embedding) and
@@ -1003,6 +1126,7 @@ def check_graph(data):
     return max(_prop_dev(Am, full), abs(mean_n - nbar), float(np.abs(np.array(st.means())[idx]).max()))
 
 
+@with_hbar
 def check_embed_fn(data):
     """The functions of decompositions.py themselves: U diag(tanh(-sq)) U^T must be a positive multiple of the documented
     matrix, and the squeezing must give the documented photon number (mean per mode, or the maximum for the deprecated one)."""
@@ -1070,21 +1194,51 @@ def _graph_matrix(rng, cls, n, symmetric):
 
 GRAPH_CLASSES = ["real", "complex", "01", "sparse", "01-selfloops", "weighted-diagonal", "complex-selfloops", "traceless",
                  "identity", "permutation", "diagonal", "rank1"]
-NBARS = [0.05, 0.2, 0.5, 1.0, 2.5]
+NBARS = [1e-3, 0.05, 0.2, 0.5, 1.0, 2.5]
+
+
+def _structured_graph_matrices():
+    """small structured family swept deterministically on every run: every sign / phase pattern of 2x2 and 3x3 diagonal
+    matrices in both orders of magnitude, the 2x2 swap with every phase, a Hadamard-like matrix, a path graph"""
+    out = []
+    ph = [1, -1, 1j, -1j]
+    for a in ph:
+        for b in ph:
+            out.append(("structured-diagonal", np.diag([2 * a, 1 * b]).astype(complex)))
+            out.append(("structured-diagonal", np.diag([1 * a, 2 * b]).astype(complex)))
+    for a in ph:
+        out.append(("structured-swap", np.array([[0, a], [a, 0]], dtype=complex)))
+        out.append(("structured-diagonal", np.diag([3 * a, 2, -1]).astype(complex)))
+    for a in ph:
+        for b in ph:
+            if (a, b) != (1, 1):
+                out.append(("structured-unit-diagonal", np.diag([a, b]).astype(complex)))
+    out.append(("structured-hadamard", np.array([[1, 1], [1, -1]], dtype=complex)))
+    out.append(("structured-path", np.array([[0, 1, 0], [1, 0, 1], [0, 1, 0]], dtype=complex)))
+    out.append(("structured-single-mode", np.array([[0.7]], dtype=complex)))
+    out.append(("structured-single-mode", np.array([[-0.7j]], dtype=complex)))
+    return out
 
 
 def search_graph(ctx, count):
     rng = ctx.rng
-    for _ in range(count):
-        kind = rng.choice(["graph", "graph", "bipartite", "fn"])
-        n = rng.randint(2, 4)
-        cls = rng.choice(GRAPH_CLASSES)
-        symmetric = kind != "bipartite" and not (kind == "fn" and False)
-        M = _graph_matrix(rng, cls, n, symmetric)
+    queue = []
+    for cls0, M0 in _structured_graph_matrices():
+        for kind0 in ("graph", "bipartite", "fn"):
+            queue.append((kind0, cls0, M0))
+    for it in range(count + len(queue)):
+        if it < len(queue):
+            kind, cls, M = queue[it]
+            n = len(M)
+        else:
+            kind = rng.choice(["graph", "graph", "bipartite", "fn"])
+            n = rng.randint(2, 4)
+            cls = rng.choice(GRAPH_CLASSES)
+            M = _graph_matrix(rng, cls, n, kind != "bipartite" or rng.random() < 0.3)
         nbar = rng.choice(NBARS) if rng.random() < 0.7 else round(rng.uniform(0.05, 2.0), 3)
         if kind == "fn":
             fn = rng.choice(["graph_embed", "graph_embed_deprecated", "bipartite_graph_embed"])
-            if fn == "bipartite_graph_embed" and rng.random() < 0.6:
+            if fn == "bipartite_graph_embed" and rng.random() < 0.6 and cls in GRAPH_CLASSES:
                 M = _graph_matrix(rng, cls, n, False)
             data = {"check": "embed-fn", "fn": fn, "class": cls, "A": mat_json(M), "nbar": nbar,
                     "make_traceless": bool(rng.random() < 0.5) if fn != "bipartite_graph_embed" else None}
@@ -1110,6 +1264,8 @@ def search_graph(ctx, count):
             continue
         if kind != "bipartite" and np.allclose(M, np.identity(n)):
             continue     # GraphEmbed(identity) is defined (and unit-tested) to do nothing
+        if rng.random() < 0.2:
+            data["hbar"] = rng.choice(HBARS)
         opts = {k: v for k, v in data.items() if k not in ("A",)}
         ctx.case(opts, nontrivial=(cls != "real" or bool(data.get("make_traceless")) or "kwargs" in data or data.get("edges") is False),
                  bucket="graph:%s:%s%s" % (data.get("fn", kind), cls, ":traceless" if data.get("make_traceless") else ""))
@@ -1133,6 +1289,7 @@ def search_graph(ctx, count):
 
 
 # ---- DisplacedSqueezed._decompose against the native preparation ----
+@with_hbar
 def check_dsq(data):
     p = data["params"]
     res = []
@@ -1155,7 +1312,7 @@ def search_dsq(ctx, count):
     rng = ctx.rng
     for _ in range(count):
         p = [rng.choice([0.0, 0.5, 1.0]), rng.choice(ANGLE_POOL), rng.choice(HYP_POOL), rng.choice(ANGLE_POOL)]
-        data = {"check": "dsq", "params": p, "mode": rng.randint(0, 1)}
+        data = {"check": "dsq", "params": p, "mode": rng.randint(0, 1), "hbar": draw_hbar(rng, 0.2)}
         ctx.case(data, nontrivial=(data["mode"] == 1 or p[2] < 0), bucket="displaced-squeezed")
         dev = check_dsq(data)
         if dev > TOL:
@@ -1182,6 +1339,7 @@ def _moments(spec, backend, pair, **bo):
     return mu, var
 
 
+@with_hbar
 def check_targets(data):
     spec, pair = data["spec"], data["pair"]
     g = _moments(spec, "gaussian", pair)
@@ -1231,6 +1389,189 @@ def search_targets(ctx, count_b, count_f):
             ctx.counterexample(sig, "program %s on modes %s: gaussian and %s backends differ by %.2e" % (cmds, pair, other, dev), data)
 
 
+
+# ---- state kept between calls: shared op objects, repeated runs, symbolic parameters ----
+def _state_of(prog, eng=None, args=None):
+    eng = eng or sf.Engine("gaussian")
+    st = eng.run(prog, args=args or {}).state
+    return np.array(st.means()), np.array(st.cov())
+
+
+def _dev_states(a, b):
+    return float(max(np.abs(a[0] - b[0]).max(), np.abs(a[1] - b[1]).max()))
+
+
+@with_hbar
+def check_reuse(data):
+    """One op object used by several commands, the same Program executed repeatedly (fresh engine, same engine after
+    reset), the same program with free parameters bound at run time: all must give the state of the program built from
+    fresh numeric op objects and executed once."""
+    n, cmds = data["n"], data["cmds"]       # cmds: [name, params, modes, dag, hh, object-id]
+
+    def prep(q):
+        for i in range(n):
+            ops.Coherent(0.2 + 0.1 * i, 0.3 * i) | q[i]
+            ops.Sgate(0.1 * (i + 1), 0.2) | q[i]
+
+    ref = sf.Program(n)
+    with ref.context as q:
+        prep(q)
+        for name, params, modes, dag, hh, _ in cmds:
+            make_op(name, params, dag, hh) | tuple(q[m] for m in modes)
+    ref_state = _state_of(ref)
+
+    shared = sf.Program(n)
+    objs = {}
+    with shared.context as q:
+        prep(q)
+        for name, params, modes, dag, hh, oid in cmds:
+            if oid not in objs:
+                objs[oid] = make_op(name, params, dag, hh)
+            objs[oid] | tuple(q[m] for m in modes)
+    devs = []
+    eng = sf.Engine("gaussian")
+    devs.append(_dev_states(_state_of(shared, eng), ref_state))        # shared objects
+    eng.reset()
+    devs.append(_dev_states(_state_of(shared, eng), ref_state))        # same program, same engine, second run
+    devs.append(_dev_states(_state_of(shared), ref_state))             # same program, fresh engine, third run
+    devs.append(_dev_states(_state_of(shared.compile(compiler="gaussian")), ref_state))   # compiled copy afterwards
+    devs.append(_dev_states(_state_of(ref), ref_state))                # the reference program itself, second run
+
+    sym = sf.Program(n)
+    args = {}
+    with sym.context as q:
+        prep(q)
+        for ci, (name, params, modes, dag, hh, _) in enumerate(cmds):
+            sp = []
+            for pi, v in enumerate(params):
+                nm = "p%d_%d" % (ci, pi)
+                sp.append(sym.params(nm))
+                args[nm] = v
+            make_op(name, sp, dag, hh) | tuple(q[m] for m in modes)
+    devs.append(_dev_states(_state_of(sym, args=args), ref_state))     # free parameters bound at run time
+    return max(devs)
+
+
+def search_reuse(ctx, count):
+    rng = ctx.rng
+    for _ in range(count):
+        n = rng.randint(2, 3)
+        nobj = rng.randint(1, 2)
+        protos = []
+        for oid in range(nobj):
+            name = rng.choice(DECOMPOSABLE + PRIMS)
+            protos.append((name, draw_params(rng, name), bool(rng.random() < 0.5), 1 if rng.random() < 0.2 else 0, oid))
+        cmds = []
+        for _ in range(rng.randint(2, 4)):
+            name, params, dag, hh, oid = rng.choice(protos)
+            cmds.append([name, params, rng.sample(range(n), NMODES[name]), dag, hh, oid])
+        data = {"check": "reuse", "n": n, "cmds": cmds, "hbar": draw_hbar(rng, 0.15)}
+        ctx.case(data, nontrivial=any(c[3] for c in cmds), bucket="reuse")
+        try:
+            dev = check_reuse(data)
+        except Exception as e:
+            ctx.counterexample("reuse:raises:%s" % type(e).__name__, "program %s with shared op objects / repeated runs / free parameters raised %r" % (cmds, e), data)
+            continue
+        if not dev <= TOL:
+            ctx.counterexample("reuse:state-differs", "program %s: shared op objects / a repeated run / run-time bound free parameters change the "
+                               "resulting state by %.2e" % (cmds, dev), data)
+
+
+# ---- every decomposable operation on every compile target, through Program.compile ----
+ALL_GATES = DECOMPOSABLE + PRIMS
+MATRIX_OPS = ["Interferometer", "GraphEmbed", "BipartiteGraphEmbed", "GaussianTransform", "Gaussian"]
+# which operations each simulator compile target is documented to accept (compilers/gaussian.py, fock.py, bosonic.py)
+SUPPORT = {"gaussian": ALL_GATES + MATRIX_OPS, "fock": ALL_GATES + MATRIX_OPS,
+           "bosonic": [g for g in ALL_GATES if g != "sMZgate"] + ["Gaussian"]}
+
+
+def _matrix_op(name, data):
+    if name == "Interferometer":
+        return ops.Interferometer(mat_of(data["M"]), mesh=data.get("mesh", "rectangular"))
+    if name == "GraphEmbed":
+        return ops.GraphEmbed(mat_of(data["M"]), mean_photon_per_mode=0.3)
+    if name == "BipartiteGraphEmbed":
+        return ops.BipartiteGraphEmbed(mat_of(data["M"]), mean_photon_per_mode=0.3, edges=True)
+    if name == "GaussianTransform":
+        return ops.GaussianTransform(np.array(data["M"]["re"]))
+    if name == "Gaussian":
+        return ops.Gaussian(np.array(data["M"]["re"]) * (sf.hbar / 2), np.array(data["r"]), decomp=data.get("decomp", True))
+    raise ValueError(name)
+
+
+@with_hbar
+def check_compile_target(data):
+    """prog.compile(compiler=c) must accept the operation, leave only primitives of c in .circuit, and the compiled
+    circuit must prepare the same state as the original program (both executed by the Gaussian simulator)."""
+    name, comp, n, targets = data["op"], data["compiler"], data["n"], data["targets"]
+
+    def build():
+        prog = sf.Program(n)
+        with prog.context as q:
+            for i in range(n):
+                ops.Coherent(0.2 + 0.1 * i, 0.3 * i) | q[i]
+            op = make_op(name, data["params"], data["dag"]) if name in ALL_GATES else _matrix_op(name, data)
+            op | tuple(q[t] for t in targets)
+        return prog
+    compiled = build().compile(compiler=comp)
+    prims = compiler_db[comp].primitives
+    bad = [c.op.__class__.__name__ for c in compiled.circuit if c.op.__class__.__name__ not in prims]
+    if bad:
+        return 1.0
+    ref = _state_of(build())
+    dev = _dev_states(_state_of(compiled), ref)
+    others = [c for c in COMPILERS if c != comp and name in SUPPORT[c] and not (c == "fock" and data.get("decomp") is False)]
+    if others:
+        again = build()
+        again.compile(compiler=others[0])      # compiling for another target must not disturb the program itself
+        dev = max(dev, _dev_states(_state_of(again), ref))
+    return dev
+
+
+def search_compile_targets(ctx, extra):
+    """deterministic sweep over every (operation, compile target) pair, plus `extra` random ones"""
+    rng = ctx.rng
+    pairs = [(o, c) for c in COMPILERS for o in SUPPORT[c]]
+    pairs += [rng.choice(pairs) for _ in range(extra)]
+    for name, comp in pairs:
+        data = {"check": "compile-target", "op": name, "compiler": comp, "hbar": draw_hbar(rng, 0.1)}
+        if name in ALL_GATES:
+            k = NMODES[name]
+            data.update(params=draw_params(rng, name), dag=bool(rng.random() < 0.4))
+        else:
+            k = 2
+            data.update(params=[], dag=False)
+            if name == "Interferometer":
+                data["M"] = mat_json(_haar(rng, 2))
+                data["mesh"] = rng.choice(MESHES[:6])
+            elif name == "GraphEmbed":
+                M = np.array([[rng.uniform(-1, 1) for _ in range(2)] for _ in range(2)])
+                data["M"] = mat_json(M + M.T)
+            elif name == "BipartiteGraphEmbed":
+                data["M"] = mat_json(np.array([[rng.uniform(0.2, 1)]]))
+            elif name == "GaussianTransform":
+                data["M"] = mat_json(_random_symplectic(rng, 2))
+            else:
+                data["M"] = mat_json(gaussian_state_of_class(rng, rng.choice(["random-mixed", "random-pure", "thermal", "diag-pure"]), 2))
+                data["r"] = [rng.choice([0.0, 0.4, -0.3]) for _ in range(4)]
+                data["decomp"] = bool(rng.random() < 0.7) if comp != "fock" else True
+        n = k + rng.randint(0, 1)
+        data["n"], data["targets"] = n, rng.sample(range(n), k)
+        ctx.case({kk: v for kk, v in data.items() if kk != "M"}, nontrivial=(data["dag"] or name in MATRIX_OPS or data["targets"] != list(range(k))),
+                 bucket="compile-target:%s:%s" % (comp, name))
+        try:
+            dev = check_compile_target(data)
+        except Exception as e:
+            ctx.counterexample("compile-target:%s:%s:raises:%s" % (comp, name, type(e).__name__),
+                               "%s%s cannot be compiled for / executed after compiling for '%s': %r" % (name, ".H" if data["dag"] else "", comp, e), data)
+            continue
+        tol = TOL_MAT if name in MATRIX_OPS else TOL
+        if not dev <= tol:
+            ctx.counterexample("compile-target:%s:%s" % (comp, name),
+                               "%s%s compiled for '%s': the compiled circuit contains non-primitives or prepares a state that differs by %.2e"
+                               % (name, ".H" if data["dag"] else "", comp, dev), data)
+
+
 def replay_corpus(ctx):
     """Known / minimised past failures first: each corpus input is re-evaluated on the implementation."""
     import glob
@@ -1259,12 +1600,14 @@ def search(ctx):
     search_dsq(ctx, ctx.budget(10, 100))
     search_native(ctx, ctx.budget(14, 120))
     search_targets(ctx, ctx.budget(25, 400), ctx.budget(8, 80))
+    search_reuse(ctx, ctx.budget(40, 500))
+    search_compile_targets(ctx, ctx.budget(10, 300))
 
 
 CHECKS = {
     "interferometer": (check_interferometer, TOL_MAT), "native": (check_native, TOL_FOCK), "ggate": (check_ggate, TOL),
     "gtransform": (check_gtransform, TOL_MAT), "gaussian-prep": (check_gaussian_prep, TOL_MAT), "graph": (check_graph, 1e-5),
-    "embed-fn": (check_embed_fn, 1e-5),
+    "embed-fn": (check_embed_fn, 1e-5), "reuse": (check_reuse, TOL), "compile-target": (check_compile_target, TOL_MAT),
     "dsq": (check_dsq, TOL),
 }
 
@@ -1277,6 +1620,7 @@ def replay(ctx, data, quiet=False):
         fn, tol = CHECKS[kind]
         try:
             dev = fn(d)
+            d.pop("_fock", None)
         except Exception as e:
             say("raised:", repr(e))
             return True
@@ -1287,16 +1631,24 @@ def replay(ctx, data, quiet=False):
         tol = TOL if d["other"] == "bosonic" else 2e-3
         say("deviation between gaussian and %s backends: %.3e (tolerance %.1e)" % (d["other"], dev, tol))
         return dev > tol
+    if kind in ("gate", "compile"):
+        with _hbar(d["case"].get("hbar")):
+            return _replay_corr(ctx, d, kind, say)
+    print("unknown replay kind", kind)
+    return False
+
+
+def _replay_corr(ctx, d, kind, say):
     if kind == "gate":
         c = d["case"]
-        ok, vals, raw = coq_eval(ctx, "replay_gate", HEADER + "Eval vm_compute in run_doc S2H IS2H RT %s.\n"
+        ok, vals, raw = coq_eval(ctx, "replay_gate", header() + "Eval vm_compute in run_doc S2H IS2H RT %s.\n"
                                      % c_cmd(c["gate"], c["params"], list(range(NMODES[c["gate"]])), c["dag"]))
         dev = _gate_predicate(c, vals[0])
         say("deviation of the executed decomposition from the documented transformation: %.3e" % dev)
         return dev > TOL
     if kind == "compile":
         c = d["case"]
-        ok, vals, raw = coq_eval(ctx, "replay_compile", HEADER + "Eval vm_compute in run_docs S2H IS2H RT %s.\n"
+        ok, vals, raw = coq_eval(ctx, "replay_compile", header() + "Eval vm_compute in run_docs S2H IS2H RT %s.\n"
                                      % coq.coq_list([c_cmd(*x) for x in c["cmds"]]))
         S, dd = run_cmds_gaussian(c["n"], [[nm, ps, [c["pair"][i] for i in w], dg] for nm, ps, w, dg in c["cmds"]])
         A, dv = split20(vals[0])
